@@ -37,6 +37,11 @@ func genC06(seed uint64, tier string) *Case {
 	for k := 0; k < g.Intn(4); k++ {
 		c.Steps = append(c.Steps, Step{Op: "in", S: []string{"event", "query"}[g.Intn(2)], U: uint64(1 + g.Intn(8))})
 	}
+	for k := 0; k < g.Intn(3); k++ {
+		// a peer's push/pull state: each of its three clocks present or absent (zero),
+		// optionally carrying a recent event (K bits: 1 event clock, 2 query clock, 4 member clock, 8 an event)
+		c.Steps = append(c.Steps, Step{Op: "in", S: "pp", U: uint64(2 + g.Intn(8)), K: g.Intn(16)})
+	}
 	return c
 }
 
@@ -112,6 +117,28 @@ func execC06(r *Run) {
 			for i, s := range incoming {
 				vsched.YieldAt("in-start")
 				var buf []byte
+				if s.S == "pp" {
+					pp := &wPushPull{StatusLTimes: map[string]uint64{}}
+					if s.K&1 != 0 {
+						pp.EventLTime = s.U
+					}
+					if s.K&2 != 0 {
+						pp.QueryLTime = s.U
+					}
+					if s.K&4 != 0 {
+						pp.LTime = s.U
+					}
+					if s.K&8 != 0 && s.K&1 != 0 {
+						pp.Events = []*wUserEvents{{LTime: s.U - 1, Events: []wUserEvt{{Name: "ppin", Payload: []byte(fmt.Sprintf("pp-%d", i))}}}}
+					}
+					nd.Del.MergeRemoteState(wEnc(mtPushPull, pp), false)
+					seq++
+					if s.K&8 != 0 && s.K&1 != 0 {
+						processed = append(processed, proc{"event", s.U - 1, seq})
+					}
+					r.Fault("incoming-state-sync-interleaved")
+					continue
+				}
 				if s.S == "event" {
 					buf = wEnc(mtUserEvent, &wUserEvent{LTime: s.U, Name: "in", Payload: []byte(fmt.Sprintf("in-%d", i))})
 				} else {
